@@ -552,6 +552,33 @@ def promote_dtype(da_, db_):
     return ExtV("numpy." + hi)
 
 
+BOOL_UFUNCS = {"less", "less_equal", "greater", "greater_equal", "equal", "not_equal", "logical_and", "logical_or", "logical_not", "logical_xor",
+               "isfinite", "isnan", "isinf", "signbit", "isnat"}
+
+
+def ufunc_result_dtype(name, args, kwargs):
+    """dtype of a ufunc output as NumPy 2 decides it: an explicit dtype= wins; predicates give bool; otherwise the promotion of
+    the array operands' dtypes (Python scalars are weak and do not take part); |complex| is the matching float; true division of
+    integers is float64.  None when an operand's dtype is not known."""
+    dt = kwargs.get("dtype")
+    if isinstance(dt, ExtV):
+        return dt
+    if name in BOOL_UFUNCS:
+        return ExtV("numpy.bool_")
+    strong = [a.dtype for a in args if isinstance(a, Num) and a.dtype is not None and (a.shape or a.kind not in ("number",) or a.tag == "data")]
+    if not strong:
+        return next((a.dtype for a in args if isinstance(a, Num) and a.dtype is not None), None)
+    acc = strong[0]
+    for d_ in strong[1:]:
+        acc = promote_dtype(acc, d_)
+    nm = acc.dotted[6:] if isinstance(acc, ExtV) and acc.dotted.startswith("numpy.") else None
+    if name in ("absolute", "fabs") and nm in ("complex64", "complex128"):
+        return ExtV("numpy.float32" if nm == "complex64" else "numpy.float64")
+    if name in ("divide", "true_divide") and nm is not None and nm.startswith(("int", "uint", "bool")):
+        return ExtV("numpy.float64")
+    return acc
+
+
 def raise_value_error(ev, msg, node, fr):
     from .symeval import Raised
     raise Raised("ValueError", node, msg)
@@ -1084,6 +1111,10 @@ def num_getattr(ev, obj: Num, name, fr, node):
         return Num(days + off - whole, kind="number", shape=obj.shape, axes=obj.axes, isfloat=True)
     if obj.kind == "time" and name in ("format", "scale"):
         return OpaqueV("time" + name, obj)       # not tracked: comparisons with a literal are undecided (both arms explored)
+    if obj.kind == "time" and name in ("value", "isot", "iso", "fits", "yday", "datetime", "datetime64", "ymdhms", "unix", "gps", "cxcsec", "byear", "jyear",
+                                       "decimalyear", "plot_date", "byear_str", "jyear_str"):
+        # the instant rendered in a (textual or single-number) format: a finite number of digits, not the two-double instant
+        return OpaqueV("timerendered", {"time": obj, "as": name})
     if name == "value":
         if obj.unit is not None:
             return Num(obj.expr / obj.unit, kind="array" if obj.shape else "number", shape=obj.shape, axes=obj.axes, isfloat=True)
@@ -1102,7 +1133,7 @@ def num_getattr(ev, obj: Num, name, fr, node):
         # a Time as a plain number of days (dimensionless): seconds * Hz / 86400
         return Num(obj.expr * UNITS["Hz"] / 86400, kind="number", shape=obj.shape, axes=obj.axes, isfloat=True)
     if name == "isot":
-        return StrV("<isot>")
+        return StrV("<isot>")       # (non-time values only; a Time's renderings are handled above)
     if name == "cycle" or name == "si" or name == "cgs":
         return obj
     if name == "flat":
@@ -1142,7 +1173,7 @@ def call_method(ev, recv, name, args, kwargs, fr, node):
         return nd_method(ev, recv, name, args, kwargs, fr, node)
     if isinstance(recv, StackV):
         if name in ("astype", "conj", "conjugate", "copy", "compute", "persist", "rechunk", "round"):
-            out = recv.map(lambda x: num_method(ev, x, name, args, kwargs, fr, node))
+            out = recv.map(lambda x: (call_method if isinstance(x, StackV) else num_method)(ev, x, name, args, kwargs, fr, node))
             if name == "compute":
                 out.backend = "numpy"
             if name == "rechunk":
@@ -1998,6 +2029,39 @@ def h_sorted(ev, args, kwargs, fr, node):
     return ListV([keyed[i][1] for i in idx])
 
 
+def h_asdict(ev, args, kwargs, fr, node):
+    """dataclasses.asdict: a NEW dict of the instance's fields (nested dataclasses/containers are not followed: the package's
+    entries hold scalars and one polynomial)."""
+    x = args[0]
+    if not isinstance(x, ObjV):
+        raise Raised("TypeError", node, "asdict() should be called on dataclass instances")
+    d = DictV()
+    for k_, v in x.attrs.items():
+        if not k_.startswith("__"):
+            d.d[k_] = v
+    return d
+
+
+def h_itemgetter(ev, args, kwargs, fr, node):
+    keys = list(args)
+
+    def get(ev2, a, k, fr2, node2):
+        vals = [ev2.getitem(a[0], key, fr2, node2) for key in keys]
+        return vals[0] if len(vals) == 1 else TupleV(vals)
+    return PyFuncV(get, "itemgetter")
+
+
+def h_attrgetter(ev, args, kwargs, fr, node):
+    names = [a.s for a in args if isinstance(a, StrV)]
+    if len(names) != len(args) or any("." in n_ for n_ in names):
+        ev.unsupported("operator.attrgetter with computed or dotted names", node, fr)
+
+    def get(ev2, a, k, fr2, node2):
+        vals = [ev2.getattr(a[0], n_, fr2, node2) for n_ in names]
+        return vals[0] if len(vals) == 1 else TupleV(vals)
+    return PyFuncV(get, "attrgetter")
+
+
 def h_maketrans(ev, args, kwargs, fr, node):
     if len(args) == 1 and isinstance(args[0], DictV):
         d = {}
@@ -2707,12 +2771,22 @@ def h_take(ev, args, kwargs, fr, node):
     axis = ev.concrete_int(kwargs.get("axis", args[2] if len(args) > 2 else NONE)) if not isinstance(kwargs.get("axis", NONE if len(args) < 3 else args[2]), NoneV) else None
     kk = ev.concrete_int(k)
     if isinstance(x, StackV):
-        if axis == x.axis and kk is not None:
+        nd = len(x.shape) if x.shape is not None else None
+        ax_n = axis % nd if (axis is not None and nd and -nd <= axis < nd) else axis
+        sx_n = x.axis % nd if (nd and -nd <= x.axis < nd) else x.axis
+        if axis is not None and ax_n == sx_n and kk is not None:
             try:
                 return x.items[kk]
             except IndexError:
                 from .symeval import Raised
                 raise Raised("IndexError", node)
+        if nd and axis is not None and 0 <= ax_n < nd and 0 <= sx_n < nd and ax_n != sx_n:
+            # along another axis than the stacked one: component by component
+            sub_ax = ax_n if ax_n < sx_n else ax_n - 1
+            st = StackV([h_take(ev, [it, k], {"axis": Num(sub_ax)}, fr, node) for it in x.items], sx_n if sx_n < ax_n else sx_n - 1, x.backend)
+            st.shape = tuple(s_ for i, s_ in enumerate(x.shape) if i != ax_n)
+            st.dtype = x.dtype
+            return st
         return Num(F["Take"](sp.Symbol("stack"), k.expr, sp.Integer(axis if axis is not None else -99)), kind="array")
     if isinstance(x, Num):
         shape = None
@@ -2976,6 +3050,11 @@ def h_time(ev, args, kwargs, fr, node):
     if isinstance(x, Num) and x.kind == "time":
         return x
     fmt = kwargs.get("format")
+    if isinstance(x, OpaqueV) and x.what == "timerendered":
+        # a Time rebuilt from a rendering of another Time: the instant to the digits of that rendering only
+        t0 = x.payload["time"]
+        ev.trace.append(("time-through-rendering", norm(node) if node is not None else "", x.payload["as"]))
+        return Num(F["TimeRendered"](sp.expand(t0.expr * UNITS["Hz"])) / UNITS["Hz"], kind="time", shape=t0.shape, axes=t0.axes)
     if isinstance(x, StrV) and isinstance(fmt, StrV) and fmt.s == "mjd":
         try:
             return Num(token_number(x.s) * 86400 / UNITS["Hz"], kind="time")
@@ -3413,6 +3492,7 @@ EXT = {
     "numpy.promote_types": lambda ev, a, k, fr, n: h_result_type(ev, a, k, fr, n),
     "numpy.empty": lambda ev, a, k, fr, n: h_zeros(ev, a, k, fr, n),
     "functools.reduce": lambda ev, a, k, fr, n: h_reduce(ev, a, k, fr, n),
+    "dataclasses.asdict": h_asdict, "operator.itemgetter": h_itemgetter, "operator.attrgetter": h_attrgetter,
     "operator.or_": lambda ev, a, k, fr, n: binop(ev, ast.BitOr(), a[0], a[1], n, fr),
     "operator.and_": lambda ev, a, k, fr, n: binop(ev, ast.BitAnd(), a[0], a[1], n, fr),
     "numpy.searchsorted": lambda ev, a, k, fr, n: Num(F["Searchsorted"](a[0].expr, a[1].expr), kind="number", tag="index"),
@@ -3481,7 +3561,7 @@ def call_ext(ev, fn: ExtV, args, kwargs, fr, node):
                 res.append(Num(sp.Function(f"Ufunc_{name}_{k}")(*exprs), tag="data",
                                kind="quantity" if any(isinstance(a, Num) and a.kind == "quantity" and a.tag != "unit" for a in args) else "array",
                                shape=next((a.shape for a in args if isinstance(a, Num) and a.shape), None),
-                               dtype=next((a.dtype for a in args if isinstance(a, Num) and a.dtype is not None), None),
+                               dtype=ufunc_result_dtype(name, args, kwargs),
                                backend=next((a.backend for a in args if isinstance(a, Num) and a.backend), None)))
         return res[0] if int(nout) == 1 else TupleV(res)
     if d in EXT:
